@@ -14,6 +14,7 @@ LEVEL = dict(
                 "histories or repeated load/update cycles.",
     trusted_base=["rustc MIR and callee resolution", "BTreeMap Entry::or_insert semantics"],
 )
+LEVEL["rule_text"] += '; the /Prev loop is left only because /Prev is absent, lies outside the file, or was visited before (a forward link is legal)'
 
 
 def _run(ctx):
